@@ -1233,6 +1233,7 @@ def apply_method_contract(eng, fi, c, args, kwargs, node):
     fr_c = Frame(fi)
     bound = eng.bind_args(c.params, args, dict(kwargs), defaults_frame=fr_c)
     fr_c.vars.update(bound)
+    fr_c.vars.update({'p_' + k_: v_ for k_, v_ in bound.items()})
     nm = fi.qualname.split('afkak.')[-1]
     eng.callcount[nm] = eng.callcount.get(nm, 0) + 1
     siteid = '%s#%d' % (nm, eng.callcount[nm])
@@ -1290,6 +1291,7 @@ def unit_entry_names(eng, fr):
         for k_, v_ in top.ghost.items():
             if k_.startswith('old_') and k_[4:] in params:
                 f.vars.setdefault(k_[4:], v_)
+                f.vars.setdefault('p_' + k_[4:], v_)
         top = top.parent
     f.ghost = dict(fr.ghost) if fr is not None else {}
     return f
